@@ -15,10 +15,12 @@ Record qarg := { q_kind : qkind; q_id : nat }.            (* q_id: which value (
 (* numpy dtypes by name; can_cast(from, to, casting="safe") for the two targets that occur (modelled, validated by the run) *)
 Definition is_int_or_bool (d : string) : bool :=
   existsb (String.eqb d) ["bool"; "int8"; "int16"; "int32"; "int64"; "uint8"; "uint16"; "uint32"; "uint64"].
+(* str(dtype) of non-native byte order: ">f8", ">f4", ">c16", ">c8", ">i4", ... (never equal to a class's native dtype) *)
 Definition can_cast_safe (from to : string) : bool :=
   if String.eqb from to then true
-  else if String.eqb to "float64" then is_int_or_bool from || existsb (String.eqb from) ["float16"; "float32"]
-  else if String.eqb to "complex128" then is_int_or_bool from || existsb (String.eqb from) ["float16"; "float32"; "float64"; "complex64"]
+  else if String.eqb to "float64" then is_int_or_bool from || existsb (String.eqb from) ["float16"; "float32"; ">f8"; ">f4"; ">f2"; ">i2"; ">i4"; ">i8"; ">u2"; ">u4"; ">u8"]
+  else if String.eqb to "complex128" then is_int_or_bool from ||
+       existsb (String.eqb from) ["float16"; "float32"; "float64"; "complex64"; ">f8"; ">f4"; ">f2"; ">c16"; ">c8"; ">i2"; ">i4"; ">i8"; ">u2"; ">u4"; ">u8"]
   else false.
 
 Record args := {
